@@ -32,7 +32,10 @@
    Hence C13_rules_typed / C13_rules_sound have no hypothesis left that a validation rule of the
    model is responsible for.  What remains, and is stated: ONE operation (to_exec fl None), its
    root type exists and is an object type, and the conclusion is the declarative judgment
-   set_typed (what C13_sound consumes), not the boolean checker well_typed.  The older
+   set_typed (what C13_sound consumes), not the boolean checker well_typed.  That the root type
+   EXISTS is KnownOperationTypesRule's subject (Valid/RulesDir.v rule 23, tied to the
+   implementation by harness/crulesdir.py): C13_rules_root; that it is an object type is schema
+   validity.  The older
    C13_rules_typed_partial / _sound_partial (merging as the abstract hypothesis names_agree, no
    use of NoFragmentCycles) are kept.  KnownTypeNames / FragmentsOnCompositeTypes on fragments,
    PossibleFragmentSpreads and KnownFragmentNames are NOT needed for type safety: a fragment that
@@ -42,7 +45,7 @@ From GV Require Import Base.Prelude Lang.Lexer Lang.Ast Lang.Parser
   Exec.Value Exec.Schema Exec.Spec Exec.SpecProps Exec.Typing Exec.Soundness
   Valid.StaticTyping Valid.StaticTypingProps Valid.Rules Valid.RulesProps Valid.Rules13 Valid.ToExec
   Valid.RulesLit Valid.RulesTyping Valid.RulesTypingDoc Valid.RulesTypingGlue Valid.RulesTypingProps
-  Valid.ToOverlap Valid.ToOverlapProps Valid.OverlapBridge Valid.RulesAcyclic.
+  Valid.ToOverlap Valid.ToOverlapProps Valid.OverlapBridge Valid.RulesDir Valid.RulesAcyclic.
 From GV Require Valid.Overlap.
 
 (* ---- the ten rules never run out of fuel ---- *)
@@ -247,6 +250,13 @@ Proof.
   exact (C13_rules_merging (vs_s vs) x rt n H4 Hfs Hs Hobj Hov Hh).
 Qed.
 Print Assumptions C13_rules_sound.
+
+(* ---- the root type exists when KnownOperationTypes is silent ---- *)
+Theorem C13_rules_root : forall fl d x ds s,
+  to_exec fl None d = Some x -> roots_agree ds s -> rule_known_operation_types ds d = [] ->
+  exists rt, root_type s (d_kind x) = Some rt.
+Proof. exact rules_root_exists. Qed.
+Print Assumptions C13_rules_root.
 
 (* ---- non-vacuity ----
    type Q { f(x: Int! = 7): Int  n: I }   interface I { a: Int }   type T implements I { a: Int }
